@@ -539,6 +539,31 @@ hwloc_get_common_ancestor_obj (hwloc_topology_t topology __hwloc_attribute_unuse
    * of the same depth, their ancestors may have different depth again.
    */
   while (obj1 != obj2) {
+    if (obj1->depth < 0 || obj2->depth < 0) {
+      /* Memory, I/O and Misc objects have negative virtual depths that cannot be
+       * compared with normal depths (the normal side would climb past the root).
+       * Compare the actual numbers of ancestors instead.
+       */
+      unsigned h1 = 0, h2 = 0;
+      hwloc_obj_t tmp;
+      for(tmp = obj1; tmp->parent; tmp = tmp->parent)
+	h1++;
+      for(tmp = obj2; tmp->parent; tmp = tmp->parent)
+	h2++;
+      while (h1 > h2) {
+	obj1 = obj1->parent;
+	h1--;
+      }
+      while (h2 > h1) {
+	obj2 = obj2->parent;
+	h2--;
+      }
+      while (obj1 != obj2) {
+	obj1 = obj1->parent;
+	obj2 = obj2->parent;
+      }
+      return obj1;
+    }
     while (obj1->depth > obj2->depth)
       obj1 = obj1->parent;
     while (obj2->depth > obj1->depth)
